@@ -37,7 +37,7 @@ func init() {
 		Rule: "a chart is a file set: baseline (Chart.yaml v2, values.yaml, one template) plus every conflict-free subset of <=2 (quick) / <=3 (thorough; a two-rule .helmignore counts as two there) deviations from a table of " +
 			fmt.Sprint(len(devTable)) + " (apiVersion v1 +requirements.yaml/.lock, all optional metadata, declared dependencies, Chart.lock, schema, 5 file-name shapes, 5 contents x {file,template,values} + 3 x Chart.yaml, " +
 			"4 dependency layouts, " + fmt.Sprint(ruleSetCount()) + " .helmignore rule sets with " + fmt.Sprint(len(probeNames)) + " probe files - in cases of three deviations only the probes designed for the set's own rules plus 4 innocents); each runs LoadFiles->Save->LoadFile, LoadFiles->SaveDir->LoadDir (not for a .helmignore set combined with other deviations), dir->LoadDir vs dir->Package->LoadFile, dir->LoadDir vs own-tar->LoadArchive; " +
-			"plus invalid name/version x <=1 deviation (one .helmignore set only) x {Save, Package, Package --version}; plus write-phase faults (invalid chart name - plainly invalid or collapsing to one after sanitizing - 1 or 2 levels down the dependency tree, values.schema.json that is not JSON at depth 0..2) x <=1 deviation x {Save, Package}: error => no file in the destination. distinct = (resulting file set) / (invalid tuple) / (fault tuple); every case is non-trivial: it reaches the tar writer or a validation error",
+			"plus invalid name/version x <=1 deviation (one .helmignore set only) x {Save, Package, Package --version}; plus write-phase faults (invalid chart name - plainly invalid or collapsing to one after sanitizing - 1 or 2 levels down the dependency tree, values.schema.json that is not JSON at depth 0..2) x <=1 deviation x {Save, Package}: error => no file in the destination; plus histories on ONE action.Package value: every sequence (with repetition) of 1..2 (quick) / 1..3 (thorough) charts out of 4 (different names/versions/appVersions, one name twice) x {no override, --version, --app-version, both}: every archive is named and filled from its own directory (+ override). distinct = (resulting file set) / (invalid tuple) / (fault tuple) / (history, override); every case is non-trivial: it reaches the tar writer or a validation error",
 		Run:    run,
 		Replay: replay,
 		Assumptions: []string{
@@ -50,7 +50,8 @@ func init() {
 		},
 		RequiredFloors: []string{"roundtrip-equal:save", "roundtrip-equal:savedir", "roundtrip-equal:package", "dir-vs-archive-equal", "ignored-file-kept-out-of-archive",
 			"ignored-by-directory-rule", "rule-matched-nothing-extra", "input-rejected", "dep-tree-depth-2", "apiversion-v1", "lock-compared", "schema-compared", "bom-seen", "invalid-rejected:save", "invalid-rejected:package",
-			"failed-write-left-nothing:save:nested-name", "failed-write-left-nothing:save:schema", "failed-write-left-nothing:package:nested-name", "failed-write-left-nothing:package:schema"},
+			"failed-write-left-nothing:save:nested-name", "failed-write-left-nothing:save:schema", "failed-write-left-nothing:package:nested-name", "failed-write-left-nothing:package:schema",
+			"history-later-run-own-version:none", "history-later-run-own-version:version", "history-later-run-own-version:appversion", "history-later-run-own-version:both"},
 	})
 }
 
@@ -460,13 +461,14 @@ func fileData(fs []file, name string) []byte {
 // ---------- reporting with minimisation ----------
 
 type replayData struct {
-	Mode     string   `json:"mode"` // rt | invalid | fault
+	Mode     string   `json:"mode"` // rt | invalid | fault | history
 	Devs     []string `json:"devs"`
 	Name     string   `json:"name,omitempty"`
 	Version  string   `json:"version,omitempty"`
 	Override string   `json:"override,omitempty"`
 	Entry    string   `json:"entry,omitempty"`
 	Fault    *fault   `json:"fault,omitempty"`
+	Seq      []int    `json:"seq,omitempty"` // history: indices into histCharts
 }
 
 type found struct {
@@ -615,6 +617,8 @@ func replay(c *core.Ctx, data json.RawMessage) []core.Violation {
 		fs = evalInvalid(rd)
 	} else if rd.Mode == "fault" {
 		fs, _ = evalFault(rd)
+	} else if rd.Mode == "history" {
+		fs, _ = evalHistory(rd)
 	} else {
 		fs = report(rd.Devs, evalCase(rd.Devs).Issues)
 	}
@@ -823,6 +827,9 @@ func run(c *core.Ctx) {
 
 	if c.Only == "" || c.Only == "fault" {
 		runFaults(c)
+	}
+	if c.Only == "" || c.Only == "history" {
+		runHistories(c)
 	}
 
 	if c.Only == "" || c.Only == "invalid" {
